@@ -322,6 +322,15 @@ def run_c18(ctx, rng, job):
         ctx.ev()
         if fromFunction(nosy).getSignatureString() != '(x, y=N(p, q=1))':
             ctx.violation('nested-rendering', {'got': fromFunction(nosy).getSignatureString()}, abort=False)
+        # lambdas (no name of their own, no documentation)
+        for lam in (lambda: 0, lambda a, b=1, *r, k, **o: 0, lambda a, /, b, *, k=2: 0, lambda *a: 0, lambda **k: 0,
+                    lambda a=(), b=None: 0, lambda a, /, *r, k=1: 0):
+            ml = fromFunction(lam)
+            check_desc(ctx, ml, expected_info(inspect.signature(lam)), 'fromFunction-lambda', 'lambda %s' % (inspect.signature(lam),))
+            ctx.ev()
+            ctx.count('lambdas_described')
+            if ml.getName() != '<lambda>' or ml.getDoc():
+                ctx.violation('name-or-doc', {'def': 'lambda %s' % (inspect.signature(lam),), 'name': ml.getName(), 'doc': ml.getDoc()}, abort=False)
         # the shipped ABC interfaces: required must be a prefix of positional, without self
         from zope.interface.common import collections as zc
         n = 0
